@@ -207,6 +207,8 @@ def gen_workbook(r, cfg):
     meta = {'formulas': [], 'poisoned': [], 'blank_in_range': []}
     # formulas
     budget = r.randint(3, 14)
+    if cfg.get('only_templates'):
+        budget = len(cfg['only_templates'])
     for s in range(n_sheets):
         n_here = budget if s == 0 else r.randint(0, 3)
         fcol = 3
@@ -218,6 +220,8 @@ def gen_workbook(r, cfg):
             names = [t[0] for t in TEMPLATES]
             weights = [t[2] for t in TEMPLATES]
             k = r.random()
+            if cfg.get('only_templates') and s == 0:
+                k = 1.0
             if prev and k < 0.22:
                 # formula over earlier formulas: fan-in / chains
                 p1, p2 = r.choice(prev), r.choice(prev)
@@ -231,6 +235,8 @@ def gen_workbook(r, cfg):
                 f = r.choice(['=TODAY()', '=YEAR(TODAY())', '=DAY(TODAY())+%s' % g.cell(), '=IF(TODAY()>%s,1,2)' % g.cell()])
             else:
                 name = r.choices(names, weights)[0]
+                if cfg.get('only_templates') and s == 0 and i < len(cfg['only_templates']):
+                    name = cfg['only_templates'][i]           # catalog workbooks: these templates, once each, in order
                 f = dict((t[0], t[1]) for t in TEMPLATES)[name](g)
             sheets[s]['cells'][a1(cc, rr)] = f
             prev.append(a1(cc, rr))
